@@ -216,6 +216,31 @@ impl<C: Suite> Model for M14<C> {
                 // the library's generator equals the reference generator
                 let gen = <C as BlsElGamal>::message_generator();
                 o.expect(&format!("C14:message-generator:{}", g), pt(&gen) == rf::enc(&rf::elgamal_generator::<C::R>()), "reference generator", "differs");
+                // trait level routes: seal_scalar with explicit generator and blinder equals the textbook formula computed
+                // by the reference; seal_point encrypts a point that decrypts to itself
+                {
+                    use rand_core::SeedableRng;
+                    let rng = || rand_chacha::ChaCha20Rng::from_seed([11u8; 32]);
+                    let pk = self.sks[*k].public_key();
+                    let b = self.plains[4].0;
+                    let rb = rf::scalar_from_be(&self.plains[4].to_be_bytes()).unwrap();
+                    let rm = rf::scalar_from_be(&self.plains[*m].to_be_bytes()).unwrap();
+                    let rpk = <C::R as RefSuite>::pk_from(&Vec::<u8>::from(&pk)).unwrap();
+                    let rgen = <C::R as RefSuite>::hash_to_pk(b"c14 custom generator", <C::R as RefSuite>::DST_ELGAMAL);
+                    let gen = pt_from::<PkP<C>>(&rf::enc(&rgen)).unwrap();
+                    let want_c1 = rf::enc(&(<<C::R as RefSuite>::Pk as bls12_381_plus::group::Group>::generator() * rb));
+                    let want_c2 = rf::enc(&(rpk * rb + rgen * rm));
+                    let r = guard(|| <C as BlsElGamal>::seal_scalar(pk.0, self.plains[*m].0, Some(gen), Some(b), rng()));
+                    o.expect(&format!("C14:trait-seal_scalar-formula:{}", g), matches!(&r, Ok(Ok((c1, c2))) if pt(c1) == want_c1 && pt(c2) == want_c2), "c1 = G*b, c2 = pk*b + gen*m", verdict(&r));
+                    let point = gen + gen;
+                    let r2 = guard(|| <C as BlsElGamal>::seal_point(pk.0, point, Some(b), rng()));
+                    let ok = matches!(&r2, Ok(Ok((c1, c2))) if <C as BlsElGamal>::decrypt(self.sks[*k].0, *c1, *c2) == point && pt(c1) == want_c1);
+                    o.expect(&format!("C14:trait-seal_point-roundtrip:{}", g), ok, "decrypts to the sealed point", verdict(&r2));
+                    let r3 = guard(|| <C as BlsElGamal>::seal_point(pk.0, point, None, rng()));
+                    let ok3 = matches!(&r3, Ok(Ok((c1, c2))) if <C as BlsElGamal>::decrypt(self.sks[*k].0, *c1, *c2) == point);
+                    o.expect(&format!("C14:trait-seal_point-roundtrip-fresh-blinder:{}", g), ok3, "decrypts to the sealed point", verdict(&r3));
+                    o.calls(3);
+                }
                 // a different key does not decrypt to m*H
                 let d2 = ct.decrypt(&self.sks[2]);
                 o.expect(&format!("C14:decrypt-wrong-key:{}", g), pt(&d2) != self.ref_point(&[*m]), "a different point", "the plaintext point");
